@@ -67,7 +67,7 @@ def sync_files():
     return om.__file__
 
 
-def run_schedule(kind, scenario, k, fresh=False):
+def run_schedule(kind, scenario, k, fresh=False, slow_bodies=False):
     """A is parked before its k-th line event inside the wrapper / table helpers; B runs; A resumes.
     Returns (lines_seen_by_A, problem or None)."""
     warnings.filterwarnings("ignore")
@@ -76,7 +76,7 @@ def run_schedule(kind, scenario, k, fresh=False):
     try:
         o = make_oracle(kind, d)
         # bodies = the undecorated methods reached through the wrapper: instrument populate_space / _save_trial / _retry (inside the bodies)
-        probe = Probe(); probe.slow = 0.7 if fresh else 0.002
+        probe = Probe(); probe.slow = 0.7 if (fresh or slow_bodies) else 0.002
         probe.wrap(o, ["populate_space", "_save_trial"])
         # prepare trials so that end/update are possible without racing on set-up
         # unless `fresh`: the first concurrent use of a new oracle, whose lock / owner entries do not exist yet
@@ -126,7 +126,12 @@ def run_schedule(kind, scenario, k, fresh=False):
                 finally:
                     sys.settrace(None)
             t = threading.Thread(target=run, daemon=True, name=name); t.start(); return t
-        a_ops = {"create": lambda: o.create_trial("A"), "raise": lambda: o.update_trial("nope", {"score": 1.0}),
+        def raise_then_create():
+            # a call that raises inside the synchronized method, then the same thread's next call: the first must leave nothing behind
+            try: o.update_trial("nope", {"score": 1.0})
+            except KeyError: pass
+            o.create_trial("A")
+        a_ops = {"create": lambda: o.create_trial("A"), "raise": lambda: o.update_trial("nope", {"score": 1.0}), "raise_then_create": raise_then_create,
                  "end": lambda: (setattr(pre, "status", "COMPLETED"), o.update_trial(pre.trial_id, {"score": 1.0}), o.end_trial(pre))}
         b_ops = {"create": lambda: o.create_trial("B"), "end": lambda: (setattr(pre2, "status", "COMPLETED"), o.update_trial(pre2.trial_id, {"score": 2.0}), o.end_trial(pre2)),
                  "raise": lambda: o.update_trial("nope", {"score": 1.0})}
@@ -188,22 +193,22 @@ def different_oracles_independent():
 def run(ctx):
     failures = []; stats = dict(schedules=0, parked=0, by_scenario={}, lines_in_wrapper=0)
     tr = ctx.notes[-1] if ctx.notes else {}
-    scenarios = [("fresh", ("create", "create")), ("fresh", ("create", "raise")), ("random", ("create", "create")), ("random", ("raise", "create")), ("random", ("create", "raise")), ("grid", ("end", "end")), ("grid", ("create", "end")), ("grid", ("raise", "end"))]
+    scenarios = [("slow", ("raise_then_create", "create")), ("fresh", ("create", "create")), ("fresh", ("create", "raise")), ("random", ("create", "create")), ("random", ("raise", "create")), ("random", ("create", "raise")), ("grid", ("end", "end")), ("grid", ("create", "end")), ("grid", ("raise", "end"))]
     if not ctx.quick:
         scenarios += [("grid", ("end", "create")), ("random", ("end", "end")), ("random", ("raise", "raise")), ("grid", ("create", "create"))]
     samples = []
     for kind, sc in scenarios:
-        fresh = kind == "fresh"; okind = "random" if fresh else kind
-        n_lines, _, _ = run_schedule(okind, sc, 10 ** 6, fresh)       # no parking: count the line events of A
+        fresh = kind == "fresh"; slow = kind == "slow"; okind = "random" if fresh or slow else kind
+        n_lines, _, _ = run_schedule(okind, sc, 10 ** 6, fresh, slow)       # no parking: count the line events of A
         stats["lines_in_wrapper"] = max(stats["lines_in_wrapper"], n_lines)
         ks = list(range(1, n_lines + 1))
         for k in ks:
-            cnt, reached, problem = run_schedule(okind, sc, k, fresh)
+            cnt, reached, problem = run_schedule(okind, sc, k, fresh, slow)
             stats["schedules"] += 1; stats["parked"] += bool(reached)
             stats["by_scenario"]["%s:%s/%s" % (kind, sc[0], sc[1])] = stats["by_scenario"].get("%s:%s/%s" % (kind, sc[0], sc[1]), 0) + 1
             if problem:
                 failures.append(Failure("violation", "C17/%s" % problem[0], "%s oracle, A=%s B=%s: %s" % (kind, sc[0], sc[1], problem[1]),
-                                        {"oracle": okind, "fresh": fresh, "A": sc[0], "B": sc[1], "park_A_before_line_event": k}))
+                                        {"oracle": okind, "fresh": fresh, "slow": slow, "A": sc[0], "B": sc[1], "park_A_before_line_event": k}))
                 break
         if len(samples) < 3:
             samples.append(dict(oracle=kind, A=sc[0], B=sc[1], preemption_points=n_lines))
@@ -214,7 +219,7 @@ def run(ctx):
     if dec and not all(dec.values()):
         failures.append(Failure("violation", "C17/undecorated", "methods without @synchronized: %r" % [k for k, v in dec.items() if not v], {"decorated": dec}))
     return dict(evaluations=stats["schedules"] + 1, distinct_nontrivial=stats["parked"], traces_validated=stats["schedules"],
-                rule="for each scenario (oracle kind; call of thread A; call of thread B; calls that raise inside the synchronized method included; grid's end_trial is a nested "
+                rule="for each scenario (oracle kind; call(s) of thread A - one of them a raising call followed by a second call of the same thread, with slow bodies; call of thread B; calls that raise inside the synchronized method included; grid's end_trial is a nested "
                      "synchronized call) and each k up to the number of line events A executes inside the wrapper and the lock-table helpers: park A before its k-th line, "
                      "let B run, resume A; detect overlapping bodies, threads that never return, errors and an oracle left locked; plus independence of two oracles; "
                      "non-trivial = schedules in which A was actually parked",
@@ -225,7 +230,7 @@ def replay(ctx, doc):
     r = doc["replay"]
     fs = []
     if "park_A_before_line_event" in r:
-        _, _, problem = run_schedule(r["oracle"], (r["A"], r["B"]), r["park_A_before_line_event"], r.get("fresh", False))
+        _, _, problem = run_schedule(r["oracle"], (r["A"], r["B"]), r["park_A_before_line_event"], r.get("fresh", False), r.get("slow", False))
         if problem:
             fs.append(Failure("violation", "C17/" + problem[0], problem[1], r))
     return dict(evaluations=1, distinct_nontrivial=1, failures=fs, samples=[r], rule="replay of one schedule")
